@@ -1,0 +1,47 @@
+/* Icinga 2 | (c) 2025 Icinga GmbH | GPLv2+ */
+
+#ifndef VERIF_HOOKS_H
+#define VERIF_HOOKS_H
+
+/* Named schedule points for the verification harness (hook H3).
+ *
+ * Without -DICINGA2_VERIF the macro expands to nothing and this header declares nothing.
+ * With the define, VERIF_POINT(name, obj) calls a harness-installable function (if one is installed)
+ * on the calling thread, i.e. while the locks of the surrounding critical section are held. The
+ * harness uses it to log the order of the lock-protected sections and to inject seeded delays. */
+
+#ifdef ICINGA2_VERIF
+
+#include <functional>
+
+namespace icinga
+{
+
+typedef std::function<void (const char *, const void *)> VerifPointFunction;
+
+/* One instance per process (inline function, function-local static). Install before starting threads. */
+inline VerifPointFunction& VerifPointHook()
+{
+	static VerifPointFunction hook;
+	return hook;
+}
+
+inline void VerifPointCall(const char *name, const void *obj)
+{
+	VerifPointFunction& hook = VerifPointHook();
+
+	if (hook)
+		hook(name, obj);
+}
+
+}
+
+#define VERIF_POINT(name, obj) ::icinga::VerifPointCall((name), (obj))
+
+#else /* ICINGA2_VERIF */
+
+#define VERIF_POINT(name, obj) ((void)0)
+
+#endif /* ICINGA2_VERIF */
+
+#endif /* VERIF_HOOKS_H */
